@@ -855,6 +855,12 @@ func dbxStarts(w int64) [][]string {
 		{"app/s1/F+1/f", "app/s1/F+160/f", "compact", "app/s1/F+160/f", "compact", "app/s1/F+160/f", "compact", "app/s1/F+160/f", "compact"},
 		{"app/s1/F+1/f", "app/s2/F+1/f", "app/s1/F+160/f", "compact", "del/all/F-1/F+1", "app/s1/F+1/f", "del/s1/B-R/B-1"},
 		{"app/s1/F+1/h", "app/s1/F+1/h", "app/s1/F+1/fh", "app/s1/F+1/st", "app/s1/F+1/f", "mmap"},
+		// a second WAL segment (a restart starts one) holding samples that are afterwards also m-mapped:
+		// (the second restart flushes the chunk file): if that segment is lost or repaired away the
+		// samples live in chunks_head only
+		{"app/s1/F+1/f", "app/s2/F+1/f", "reopen", "app/s1/F+1/f", "app/s1/F+160/f", "mmap", "reopen"},
+		// four head chunks of one series that were never m-mapped, the oldest cut off by a head compaction
+		{"app/s1/F+1/f", "app/s1/F+160/f", "app/s1/F+160/h", "app/s1/F+160/f", "cmphead"},
 		// a sample exactly on a block boundary, deleted by an interval ENDING on that boundary, and
 		// enough later data that the next head compaction cuts the head exactly there
 		{"app/s1/F+1/f", "app/s2/F+1/f", "app/s1/B+0/f", "del/s1/B-R-1/B-R", "app/s1/F+160/f", "cmphead"},
@@ -909,6 +915,17 @@ func (x *dbx) Key() string {
 	fmt.Fprintf(&sb, "|hts%d", nts)
 	if first, last, err := wlog.Segments(h.wal.Dir()); err == nil {
 		fmt.Fprintf(&sb, "|wal%d-%d", first, last)
+	}
+	// write position of the log and of the out-of-order log: two histories that leave the same data
+	// in memory but different records in the log (a sample logged and then dropped at commit, a
+	// series record of a rolled-back appender) have different futures — the next restart replays them
+	if _, off, err := h.wal.LastSegmentAndOffset(); err == nil {
+		fmt.Fprintf(&sb, "@%d", off)
+	}
+	if h.wbl != nil {
+		if seg, off, err := h.wbl.LastSegmentAndOffset(); err == nil {
+			fmt.Fprintf(&sb, "|wbl%d@%d", seg, off)
+		}
 	}
 	if x.extraKey != nil {
 		sb.WriteString(x.extraKey(x))
